@@ -18,6 +18,14 @@ def make_spec_arrays(spec):
     scl = 2.0 ** rng.integers(-2, 3, size=(nsub, npol, nchan)).astype(np.float64)
     offs = rng.integers(-4, 5, size=(nsub, npol, nchan)).astype(np.float64) / 2
     wts = rng.choice([1.0, 1.0, 1.0, 0.5, 0.0, 2.0], size=(nsub, nchan))
+    # rows whose calibration columns are trivial (all scales 1 / all offsets 0 / all weights 1), as written by
+    # instruments that do not rescale: for every row ("trivial"), or for some rows only ("mixed")
+    rng2 = np.random.default_rng(spec["seed"] + 1)
+    for arr, key, triv in ((scl, "scl_kind", 1.0), (offs, "offs_kind", 0.0), (wts, "wts_kind", 1.0)):
+        kind = spec.get(key, "random")
+        for i in range(nsub):
+            if kind == "trivial" or (kind == "mixed" and rng2.integers(0, 2)):
+                arr[i] = triv
     f0, df = spec["f0"], spec["df"]
     freqs = f0 + df * np.arange(nchan)
     return raw, scl.astype(np.float32), offs.astype(np.float32), wts.astype(np.float32), freqs
